@@ -331,4 +331,81 @@ theorem readString_writeString (s rest : Bytes) : readString (writeString s ++ r
   · exact readString_invalid s rest hv
   · exact readString_valid s rest hv
 
+/-! ### the Go loop with `start`/`i` bookkeeping refines to the per-byte loop -/
+
+theorem decodeRune_size_pos (b : UInt8) (t : Bytes) : 1 ≤ (decodeRune (b :: t)).2 := by
+  unfold decodeRune
+  simp only
+  repeat' split
+  all_goals simp
+
+theorem take_pending (run : Bytes) (n : Nat) : (if 0 < n then run.take n else []) = run.take n := by
+  by_cases h : 0 < n
+  · rw [if_pos h]
+  · have : n = 0 := by omega
+    subst this; simp
+
+theorem escapeGo_eq_aux (k : Nat) : ∀ (cur run : Bytes) (n : Nat), cur.length ≤ k → cur = run.drop n →
+    escapeGo run n cur = run.take n ++ escapeLoop cur := by
+  induction k with
+  | zero =>
+    intro cur run n hl hc
+    have : cur = [] := List.eq_nil_of_length_eq_zero (by omega)
+    subst this
+    rw [escapeGo, escapeLoop]
+    have ht : run.take n = run := by
+      have := List.take_append_drop n run
+      rw [← hc] at this; simpa using this
+    rw [ht]
+    by_cases hr : run = [] <;> simp [hr]
+  | succ k ih =>
+    intro cur run n hl hc
+    match cur, hl, hc with
+    | [], _, hc =>
+      rw [escapeGo, escapeLoop]
+      have ht : run.take n = run := by
+        have := List.take_append_drop n run
+        rw [← hc] at this; simpa using this
+      rw [ht]
+      by_cases hr : run = [] <;> simp [hr]
+    | b :: t, hl, hc =>
+      have hlt : t.length ≤ k := by simp at hl; omega
+      have hsplit : ∀ m, run.take (n + m) = run.take n ++ (b :: t).take m := by
+        intro m; rw [List.take_add, ← hc]
+      have hdrop : ∀ m, run.drop (n + m) = (b :: t).drop m := by
+        intro m; rw [← List.drop_drop, ← hc]
+      rw [escapeGo, escapeLoop]
+      by_cases hb : b.toNat < 0x80
+      · rw [if_pos hb, if_pos hb]
+        by_cases hs : safe b.toNat = true
+        · rw [if_pos hs, if_pos hs, ih t run (n + 1) hlt (by rw [hdrop 1]; rfl), hsplit 1]
+          simp
+        · rw [if_neg hs, if_neg hs, take_pending, ih t t 0 hlt rfl]
+          simp
+      · rw [if_neg hb, if_neg hb]
+        simp only
+        have hpos := decodeRune_size_pos b t
+        by_cases h1 : (decodeRune (b :: t)).1 = runeError ∧ (decodeRune (b :: t)).2 = 1
+        · rw [if_pos h1, if_pos h1, take_pending, ih t t 0 hlt rfl]; simp
+        · rw [if_neg h1, if_neg h1]
+          have hdl : (t.drop ((decodeRune (b :: t)).2 - 1)).length ≤ k := by
+            rw [List.length_drop]; omega
+          by_cases h2 : (decodeRune (b :: t)).1 = 0x2028 ∨ (decodeRune (b :: t)).1 = 0x2029
+          · rw [if_pos h2, if_pos h2, take_pending, ih _ _ 0 hdl rfl]; simp
+          · rw [if_neg h2, if_neg h2]
+            obtain ⟨m, hm⟩ : ∃ m, (decodeRune (b :: t)).2 = m + 1 := ⟨(decodeRune (b :: t)).2 - 1, by omega⟩
+            rw [hm] at hdl ⊢
+            simp only [Nat.add_one_sub_one] at hdl ⊢
+            rw [ih (t.drop m) run (n + (m + 1)) hdl (by rw [hdrop (m + 1)]; rfl), hsplit (m + 1)]
+            simp
+
+/-- the Go loop with its `start`/`i` bookkeeping emits exactly what the per-byte loop emits -/
+theorem escapeGo_eq (s : Bytes) : escapeGo s 0 s = escapeLoop s := by
+  have := escapeGo_eq_aux s.length s s 0 (Nat.le_refl _) rfl
+  simpa using this
+
+theorem writeStringGo_eq (s : Bytes) : writeStringGo s = writeString s := by
+  unfold writeStringGo writeString
+  rw [escapeGo_eq]
+
 end TLVerif.Jsonp
